@@ -200,11 +200,12 @@ func (sc *Scenario) TemplateOfCtx(idHex string) int {
 
 // Action is one transition label.
 type Action struct {
-	Name   string
-	Kind   string // define bind update disable enable refund setw withdraw call respond pause start kill updctx E mcreate mpause mstart mkill mupdate
-	Msg    sdk.Msg
-	TxHash []byte
-	Mod    func(ctx sdk.Context, k servicekeeper.Keeper) error
+	Name     string
+	Kind     string // define bind update disable enable refund setw withdraw call respond pause start kill updctx E mcreate mpause mstart mkill mupdate
+	Msg      sdk.Msg
+	TxHash   []byte
+	Mod      func(ctx sdk.Context, k servicekeeper.Keeper) error
+	TimeStep int64 // E only: seconds by which the block time advances (0 = one second)
 
 	Signer   sdk.AccAddress
 	Svc      string
@@ -223,6 +224,12 @@ type Action struct {
 func (a Action) IsE() bool { return a.Kind == "E" }
 
 func actE() Action { return Action{Name: "E", Kind: "E", Tmpl: -1} }
+
+// actEJump: an end of block after which the next block's time lies `sec` seconds later instead of one (block times
+// are only required to increase): windows and periods measured in time can be jumped over.
+func actEJump(sec int64) Action {
+	return Action{Name: fmt.Sprintf("E+%ds", sec), Kind: "E", Tmpl: -1, TimeStep: sec}
+}
 
 // actDefineBytes: a definition whose free-text fields hold bytes that are not valid UTF-8 (a protobuf transaction can
 // carry them; the JSON genesis cannot).
@@ -469,9 +476,10 @@ type Scenario struct {
 	Templates        []Template
 	Alpha            func(sc *Scenario, v *View) []Action // enabled actions except E and call (added by the engine)
 	Depth            int
-	MaxBlocks        int  // bound on E actions (absolute: height < H0+MaxBlocks)
-	MaxMsgs          int  // messages per block
-	Restart          bool // the chain may be restarted once from a zero-height export (between two blocks)
+	MaxBlocks        int   // bound on E actions (absolute: height < H0+MaxBlocks)
+	MaxMsgs          int   // messages per block
+	TimeJump         int64 // if > 0, an end of block may also be followed by a block whose time lies that many seconds later
+	Restart          bool  // the chain may be restarted once from a zero-height export (between two blocks)
 }
 
 // Enabled lists the actions of a state in canonical order: E first (time passing is the default), then
@@ -481,6 +489,9 @@ func (sc *Scenario) Enabled(v *View) []Action {
 	s := v.S
 	if int(s.Height-H0) < sc.MaxBlocks {
 		out = append(out, actE())
+		if sc.TimeJump > 0 {
+			out = append(out, actEJump(sc.TimeJump))
+		}
 	}
 	if sc.Restart && s.Msgs == 0 && s.Used&restartBit == 0 && s.Height > H0 {
 		out = append(out, actRestart())
